@@ -2031,8 +2031,17 @@ func checkBestRun(m *Model, r *RuleResult, f *ssa.Function) {
 		if len(loopsContaining(naturalLoops(f), pc.Block())) > 0 {
 			ok := false
 			for _, d := range controlDeps(pc.Block()) {
-				if bo, isBin := d.If.Cond.(*ssa.BinOp); isBin && d.Branch == 0 && bo.Op == token.LSS && bo.X == ssa.Value(cc) {
-					if _, isPhi := bo.Y.(*ssa.Phi); isPhi {
+				if bo, isBin := d.If.Cond.(*ssa.BinOp); isBin {
+					// new < best on the true edge; the same test spelled best > new, or as the false edge of new >= best / best <= new
+					x, y, op := bo.X, bo.Y, bo.Op
+					if y == ssa.Value(cc) {
+						x, y = y, x
+						op = map[token.Token]token.Token{token.LSS: token.GTR, token.GTR: token.LSS, token.LEQ: token.GEQ, token.GEQ: token.LEQ}[op]
+					}
+					if d.Branch == 1 {
+						op = map[token.Token]token.Token{token.GEQ: token.LSS, token.LEQ: token.GTR}[op]
+					}
+					if _, isPhi := y.(*ssa.Phi); isPhi && x == ssa.Value(cc) && op == token.LSS {
 						ok = true
 					}
 				}
@@ -3199,7 +3208,7 @@ func runBal1(m *Model, r *RuleResult) {
 				for lf := range leaves {
 					switch x := lf.(type) {
 					case *ssa.Call:
-						if ssa.Value(x) != low {
+						if ssa.Value(x) != low && !selectsWithin(x, low, high) {
 							okSel = false
 							why = "the stored layer can be " + x.String()
 						}
@@ -3787,4 +3796,85 @@ func best1StructMode(m *Model, r *RuleResult) bool {
 		}
 	}
 	return true
+}
+
+// selectsWithin: call is a module helper handed the window [low, high] that returns its lower-bound parameter or a counter that starts one
+// above it and is bounded by its upper-bound parameter (the "least crowded layer in the window" scan extracted into a function).
+func selectsWithin(call *ssa.Call, low, high ssa.Value) bool {
+	c := call.Call.StaticCallee()
+	if c == nil || !inModule(c) || len(c.Blocks) == 0 || c.Signature.Results().Len() != 1 {
+		return false
+	}
+	var pl, ph *ssa.Parameter
+	for i, a := range call.Call.Args {
+		if i >= len(c.Params) {
+			break
+		}
+		if a == low {
+			pl = c.Params[i]
+		}
+		if a == high {
+			ph = c.Params[i]
+		}
+	}
+	if pl == nil || ph == nil {
+		return false
+	}
+	ok, n := true, 0
+	eachInstr(c, func(in ssa.Instruction) {
+		ret, isRet := in.(*ssa.Return)
+		if !isRet || len(ret.Results) != 1 {
+			return
+		}
+		n++
+		seen := map[ssa.Value]bool{}
+		var walk func(x ssa.Value)
+		walk = func(x ssa.Value) {
+			if seen[x] {
+				return
+			}
+			seen[x] = true
+			switch y := x.(type) {
+			case *ssa.Parameter:
+				if y != pl {
+					ok = false
+				}
+			case *ssa.Phi:
+				isCtr := false
+				for _, e := range y.Edges {
+					if eb, isBin := e.(*ssa.BinOp); isBin && eb.Op == token.ADD && eb.X == ssa.Value(y) {
+						isCtr = true
+					}
+				}
+				if !isCtr {
+					for _, e := range y.Edges {
+						walk(e)
+					}
+					return
+				}
+				initOK, condOK := false, false
+				for _, e := range y.Edges {
+					if eb, isBin := e.(*ssa.BinOp); isBin && eb.Op == token.ADD && eb.X == ssa.Value(pl) {
+						if k, isC := constInt(eb.Y); isC && k == 1 {
+							initOK = true
+						}
+					}
+				}
+				if refs := y.Referrers(); refs != nil {
+					for _, ref := range *refs {
+						if bo, isBin := ref.(*ssa.BinOp); isBin && bo.Op == token.LEQ && bo.X == ssa.Value(y) && bo.Y == ssa.Value(ph) {
+							condOK = true
+						}
+					}
+				}
+				if !initOK || !condOK {
+					ok = false
+				}
+			default:
+				ok = false
+			}
+		}
+		walk(ret.Results[0])
+	})
+	return ok && n > 0
 }
